@@ -28,20 +28,48 @@ WIDGET = Opaque("Widget")
 NOPOS = -7777  # stands for the `None` position of a (None, None) answer
 
 
+_WAT = z3.Function("ListWalker.at", S.opaque_sort("ListWalker"), z3.IntSort(), z3.IntSort(), S.opaque_sort("Widget"))
+
+
+def widget_at(walker, ver, position):
+    """"Positions name widgets": the widget a walker in state version `ver` has at `position` -- whichever of get_focus /
+    get_prev / get_next reports the position reports this widget with it, and set_focus(position) makes it the focus
+    (SimpleListWalker / SimpleFocusListWalker: `self[position]`).  Opaque individuals stand for behaviour, so a walker that
+    builds an equal widget afresh for every answer is covered."""
+    return V.SOpaque("Widget", _WAT(walker.e, V._z(ver), V._z(position)), {})
+
+
+def _answer_ver(r, default):
+    """The walker state version an answer (widget | None, position) of get_focus / get_prev / get_next was computed for:
+    the second argument of the uninterpreted application that is its position component."""
+    e = getattr(r[1], "e", None)
+    if e is not None and z3.is_app(e) and e.num_args() >= 2 and z3.is_int_value(e.arg(1)):
+        return e.arg(1).as_long()
+    return default
+
+
 class ListWalkerProtocol(Protocol):
     kind = "ListWalker"
 
+    def bump(self, st, recv):
+        st.ghost.setdefault("lw_prev_ver", {})[str(recv.e)] = self.version(st, recv)  # (read by _ens_set_focus)
+        super().bump(st, recv)
+
     def _ens_set_focus(st, w, a, r):
         # evaluated after the state version was bumped: speaks about the walker *after* a successful set_focus
-        g = PROTOCOLS["ListWalker"].call_quiet(st, w, "get_focus", {})
-        return [neg(mk_bool(g[0].isnone)), g[1] == a["position"]]
+        P = PROTOCOLS["ListWalker"]
+        g = P.call_quiet(st, w, "get_focus", {})
+        before = st.ghost.get("lw_prev_ver", {}).get(str(w.e), 0)
+        return [neg(mk_bool(g[0].isnone)), g[1] == a["position"], eq(val(g[0]), widget_at(w, before, a["position"]))]
 
     def _ens_neighbour(st, w, a, r):
         # (None, None) is modelled as (None, NOPOS): an integer no walker uses as a position (see `methods`)
-        return [ite(mk_bool(r[0].isnone), r[1] == NOPOS, both(neg(r[1] == NOPOS), neg(r[1] == a["position"])))]
+        at = widget_at(w, _answer_ver(r, PROTOCOLS["ListWalker"].version(st, w)), r[1])
+        return [ite(mk_bool(r[0].isnone), r[1] == NOPOS, both(neg(r[1] == NOPOS), neg(r[1] == a["position"]), eq(val(r[0]), at)))]
 
     def _ens_get_focus(st, w, a, r):
-        return [either(mk_bool(r[0].isnone), neg(r[1] == NOPOS))]
+        at = widget_at(w, _answer_ver(r, PROTOCOLS["ListWalker"].version(st, w)), r[1])
+        return [either(mk_bool(r[0].isnone), both(neg(r[1] == NOPOS), eq(val(r[0]), at)))]
 
     methods = {
         "get_focus": PMethod(Tup(Opt(WIDGET), Int), params=[], ensures=_ens_get_focus),
@@ -101,7 +129,10 @@ def walker_focus(s, when="now"):
         ver = st.ghost.get("ver_post", st.ghost.get("ver", {})).get(str(recv.e), 0)
     else:
         ver = P.version(st, recv)
-    return P.uf_value(st, "get_focus", recv, [], P.methods["get_focus"].result, ver)
+    r = P.uf_value(st, "get_focus", recv, [], P.methods["get_focus"].result, ver)
+    for f in P.methods["get_focus"].ensures(st, recv, {}, r):  # the protocol's own clauses for this answer
+        st.assume(f)
+    return r
 
 
 def focus_at(s, when, position):
